@@ -25,6 +25,7 @@ SELFTEST_MAP = {
     "zbdd_satcount_unguarded_sub.patch": ["C12"],
     "saturating_checked_shl.patch": ["C12"],
     "varnamemap_derived_clone.patch": ["C16"],
+    "f64_parse_unnormalised.patch": ["C10"],
     "pointer_handle_wrong_data_type.patch": ["C05", "C20"],
     "dddmp_unchecked_index.patch": ["C15"],
     "dddmp_unchecked_sub.patch": ["C15"],
